@@ -169,7 +169,9 @@ def main(prop, title, rules, level, explanation, assumptions, trusted_base=None,
     t0 = time.time()
     tier = tier or os.environ.get("VERIF_TIER") or "quick"
     seed = int(os.environ.get("VERIF_SEED", "0") or 0)
-    configs = ["dev"] if tier == "quick" else ["dev", "release"]
+    # both build configurations in both tiers: users run the release build, the suite runs the dev build, and a line behind
+    # `#[cfg(debug_assertions)]` exists in one of them only (a seeded change hid the abort re-check that way)
+    configs = ["dev", "release"]
     all_insts = []
     metas = []
     functions = set()
